@@ -154,9 +154,11 @@ func cmdDiscovery(args []string) error {
 	// interleaving): more than any fixed small capacity inside the grouping code
 	wide := tab
 	wide.Locs = append([]string{}, tab.Locs...)
-	for i := 3; i <= 11; i++ {
-		wide.Locs = append(wide.Locs, fmt.Sprintf("usb-0000:00:14.0-%d", i))
+	for i := 3; i <= 9; i++ {
+		wide.Locs = append(wide.Locs, fmt.Sprintf("usb-0000:00:14.0-%d/input%d", i/2, i%2))
 	}
+	// prefixes and near-duplicates of other locations
+	wide.Locs = append(wide.Locs, "usb-0000:00:14.0-1", "usb-0000:00:14.0-1/input", "usb-0000:00:14.0-1/input00", "/input0", "USB-0000:00:14.0-1/input0")
 	for c := 0; c < nrand; c++ {
 		n := maxlen + 1 + rng.Intn(randMax-maxlen)
 		t := &tab
